@@ -150,7 +150,7 @@ def check(ctx):
                key=f"C02.3:{member}:both-ends",
                # (values computed by a helper object / iterator adaptor that
                # is not read: no evidence which ends they use)
-               evidence=not opaque(err) and any(
+               evidence=not opaque(err, (IDPAIRS,)) and any(
                    x.op == "elem" and x.args[0] is IDPAIRS
                    for x in err.walk()))
 
@@ -208,13 +208,33 @@ def check(ctx):
                                f"{w4}_j))" if ok3 else
                                f"traj roles {w1},{w2},{w3},{w4}; indices "
                                f"{fmt(i1)},{fmt(j1)},{fmt(i2)},{fmt(j2)}")
+            word = mm.group_word(E)
+            if not ok3 and word is not None:
+                # any product of poses and inverses, by its normal form:
+                # E = A_j^-1 A_i B_i^-1 B_j, (A, B) the two trajectories
+                ok3 = len(word) == 4 and \
+                    [g[3] for g in word] == [-1, 1, -1, 1] and \
+                    all(g[1] == "poses_se3" for g in word) and \
+                    word[0][0] == word[1][0] and word[2][0] == word[3][0] \
+                    and {word[0][0], word[2][0]} == {"ref", "est"} and \
+                    word[0][2] is word[3][2] and word[1][2] is word[2][2] \
+                    and all(g[2].op == "sub" and g[2].args[0].op == "elem"
+                            and g[2].args[0].args[0] is IDPAIRS
+                            for g in word) and \
+                    word[1][2].args[0] is word[0][2].args[0] and \
+                    tm.is_const(word[1][2].args[1], 0) and \
+                    tm.is_const(word[0][2].args[1], 1)
+                why = " ".join(
+                    f"{g[0]}[{fmt(g[2])[-12:]}]{'^-1' if g[3] < 0 else ''}"
+                    for g in word)
             ctx.ob("C02.3", res.func, ok3 and not conds,
                    f"RPE[{member}]: E = {why}, (i, j) the components of one "
                    f"id pair, one value per pair" if ok3 and not conds else
                    f"RPE[{member}]: the relative-motion composition crosses "
                    f"indices or trajectories (or filters pairs): {why}",
                    key=f"C02.3:{member}:composition", E=fmt(E),
-                   evidence=not opaque(E) and rel is not None)
+                   evidence=word is not None or (not opaque(E) and
+                                                 rel is not None))
             fam = red["family"]
             if family == "norm":
                 ok = fam == "norm" and red["block"] == "trans"
@@ -448,7 +468,7 @@ def coindexing(ctx, res, member, err, dids, IDPAIRS, rule, raw_dids=None):
                f"with the array it was computed from — delta_ids can "
                f"stay unfiltered while the values are filtered",
                key=f"{rule}:{member}:reindex-guard", guard=fmt(cond_d),
-               evidence=not opaque(dids))
+               evidence=not opaque(dids, (IDPAIRS,)))
 
 
 
@@ -739,7 +759,7 @@ def _rpe_core(ctx, r):
            f"(receivers {[fmt(e.data.get('recv')) for e in reds]}) — "
            f"expected the same [0] + delta_ids for both, after process_data",
            key="C02.7:rpe:reduce",
-           evidence=not any(opaque(x) for x in ids if x is not None))
+           evidence=not any(opaque(x, (metric,)) for x in ids if x is not None))
 
 
 def _delta_unit(ctx):
